@@ -667,6 +667,10 @@ def validate_marker_lookup(
 
     marker_lookup = copy.deepcopy(marker_lookup)
 
+    # every parent at which a choice is made needs at least one usable
+    # marker, whatever the caller asks for
+    min_markers = max(1, min_markers)
+
     query_gene_names = set(query_gene_names)
     all_parents = copy.deepcopy(taxonomy_tree.all_parents)
     all_parents.reverse()
